@@ -62,7 +62,10 @@ def replay(p):
     n, subset = p['n'], tuple(p['subset'])
     nrm = np.linalg.norm(q)
     if nrm < 1e-12:
-        return False, 'zero vector'
+        # the obligation did not constrain the state (pure identity): any state is a counterexample candidate
+        g = np.random.default_rng(12345)
+        q = g.normal(size=2 ** n) + 1j * g.normal(size=2 ** n)
+        nrm = np.linalg.norm(q)
     q = q / nrm
     msgs = []
     for seed in range(p.get('seeds', 12)):
